@@ -122,8 +122,6 @@ def recon_tables():
     pr = src("api/formats/swimos_recon/src/printer/mod.rs")
     indent = one(r'const PRETTY_INDENT: &str = "( +)";', pr, "PRETTY_INDENT")
     nl = one(r'const NEW_LINE: &str = "(\\n)";', pr, "NEW_LINE")
-    one(r'write!\(fmt, "@\{\}", name\.as_ref\(\)\)\?;\s*let attr_printer = AttributePrinter::new', pr, "attr names written raw (F7)", 0) \
-        if len(re.findall(r'write!\(fmt, "@\{\}", name\.as_ref\(\)\)\?;', pr)) == 1 else None
     raw_names = len(re.findall(r'write!\(fmt, "@\{\}", name\.as_ref\(\)\)\?;', pr))
     quoted_names = len(re.findall(r'write_string_literal\(name\.as_ref\(\), fmt\)\?;', pr))
     if raw_names + quoted_names != 2 or (raw_names and quoted_names):
